@@ -1115,10 +1115,57 @@ def run_C16(ctx, rng, tier, res, known):
                 elif want is not None and vals[0] != want:
                     res.drift.append(dict(case=line[:300], cfg=c, impl=vals[0], model=want))
                 res.nontrivial.add(line)
+    history_sequences(ctx, rng, res, 150 if q else 3000)
     if tier == "thorough":
         miri_pass(ctx, res, [l for l in lines if len(l) < 400][:12], ("std",))
     res.samples.append(dict(case=lines[0][:200], shapes="slice, chain(2 splits), filter, VecDeque, lying size_hint, stack poison x2, after 780-digit parse, re-addressed copy, 8 threads"))
     return {}
+
+def history_sequences(ctx, rng, res, n):
+    """call-history independence: groups of RELATED inputs (same significand bits at neighbouring binary
+    exponents, same digit layout; same leading digits with different tails / exponents; f32 after f64) are parsed
+    in sequence on one thread and again each on a fresh thread; both must agree (and equal the spec)"""
+    groups = []
+    for _ in range(n):
+        f = rng.choice(["f32", "f64"])
+        F = gens.FMT[f]
+        mb = F["mbits"]
+        m = (1 << mb) | rng.getrandbits(mb)
+        k = rng.randint(0, 40)
+        tail = rng.choice(["0000000001", "00000000000000000001", "5", "4999999999999999999999999", "0000000000", "00001"])
+        items = []
+        for sh in rng.sample([0, 1, 2, 3, -1], 3) + [0]:
+            kk = k + sh
+            v = (2 * m + 1) << kk if kk >= 0 else None
+            if v is None:
+                continue
+            items.append((str(v), tail, 0))
+        if rng.random() < 0.3 and items:
+            a, b, e = items[0]
+            items.append((a, b[:-1] + "7", e))
+            items.append((a, b, e + 1))
+        if len(items) >= 2:
+            groups.append((f, items))
+    lines = ["sq %s %s" % (f, " ".join("%s %s %d" % (gens.tok(a), gens.tok(b), e) for a, b, e in items)) for f, items in groups]
+    spec_q = [gens.pf(f, a, b, e) for f, items in groups for a, b, e in items]
+    spec = [_mod().parse_model(x)[2] for x in run_model("std", "release", spec_q)]
+    for c in ctx.cfgs:
+        for p in ctx.profiles:
+            out = run_impl(c, p, lines)
+            pos = 0
+            for (f, items), line, o in zip(groups, lines, out):
+                want = [s[2:] if s else None for s in spec[pos:pos + len(items)]]
+                pos += len(items)
+                res.evals += 2 * len(items)
+                if not o.startswith("seq "):
+                    res.viol.append(("panic", dict(case=line[:600], cfg=c, profile=p, impl=o)))
+                    continue
+                seq, fresh = o[4:].split(" fresh ")
+                if seq != fresh:
+                    res.viol.append(("call-history-dependent", dict(case=line[:900], cfg=c, profile=p, sequential=seq, fresh_thread=fresh, spec=want)))
+                elif None not in want and seq.split(",") != want:
+                    res.drift.append(dict(case=line[:600], cfg=c, profile=p, impl=seq, spec=want, note="sequence agrees with fresh threads but not with the spec"))
+    res.extra["history_sequences"] = len(lines)
 
 # ------------------------------------------------------------------ C17
 def run_C17(ctx, rng, tier, res, known):
